@@ -64,11 +64,55 @@ def upper_triangular_dags(n):
         yield [ups[i] for i in range(len(ups)) if mask >> i & 1]
 
 
+def _warm_queries(g, names):
+    """Queries of every family on a partially built graph (answers ignored): a cache that survives the later mutations shows
+    up as a wrong answer on the finished graph."""
+    qs = [lambda: g.is_dag(), lambda: g.to_networkx(), lambda: g.get_topological_order(), lambda: g.adjacency_matrix,
+          lambda: g.skeleton.edges, lambda: g.to_dict()]
+    if names:
+        x, y = names[0], names[-1]
+        qs += [lambda: g.get_ancestors(x), lambda: g.get_descendants(y), lambda: g.get_nodes_between(x, y),
+               lambda: g.get_all_causal_paths(x, y), lambda: g.is_d_separated(x, y, set()),
+               lambda: identify_confounders(g, x, y), lambda: identify_markov_boundary(g, x),
+               lambda: identify_instruments(g, x, y), lambda: identify_mediators(g, x, y),
+               lambda: g.get_ancestral_graph(y), lambda: g.get_d_separation_set(x, y)]
+    for q in qs:
+        try:
+            q()
+        except Exception:  # noqa: BLE001
+            pass
+
+
 def build(n, arcs, names=NAMES):
+    """The DAG with the given arcs, reached by one of several histories chosen deterministically from the arcs: plain
+    insertion; insertion with queries of every family half way (warm caches); a detour through an extra node and an extra
+    edge that are deleted again; a copy; a dictionary round trip."""
+    mode = (n * 7 + sum((i + 1) * (3 * a + b + 1) for i, (a, b) in enumerate(arcs))) % 8
     g = CausalGraph()
-    g.add_nodes_from([names[i] for i in range(n)])
-    for a, b in arcs:
+    ids = [names[i] for i in range(n)]
+    g.add_nodes_from(ids)
+    half = len(arcs) // 2
+    for k, (a, b) in enumerate(arcs):
+        if k == half and mode == 3:
+            _warm_queries(g, ids)
+        if k == half and mode == 4:
+            g.add_node('zz~')
+            g.add_edge('zz~', names[a])
+            _warm_queries(g, ids)
         g.add_edge(names[a], names[b])
+    if mode == 4 and arcs:
+        g.delete_node('zz~')
+    if mode == 5 and arcs:
+        a, b = arcs[0]
+        _warm_queries(g, ids)
+        g.delete_edge(names[a], names[b])
+        _warm_queries(g, ids)
+        g.add_edge(names[a], names[b])
+    if mode == 6:
+        _warm_queries(g, ids)
+        g = g.copy()
+    if mode == 7:
+        g = CausalGraph.from_dict(g.to_dict())
     return g
 
 
@@ -84,10 +128,22 @@ def subsets(l):
 
 
 def impl_answers(n, arcs, which):
-    """Returns (hashes[5], aux dict) for one DAG."""
+    """Returns (hashes[5], aux dict) for one DAG.  For every other DAG (chosen deterministically from the arcs) the whole
+    battery of queries of ALL families is first run once on the same graph object with the answers discarded, so that the
+    recorded answers are 'later calls' made after every other query (a memo shared between two queries, or filled by one and
+    trusted by another, shows up); for the remaining DAGs the recorded answers are first calls."""
+    g = build(n, arcs)
+    if (len(arcs) + sum(a for a, _ in arcs)) % 2 == 1:
+        try:
+            _answers(g, n, arcs, [True] * 5)
+        except Exception:  # noqa: BLE001
+            pass
+    return _answers(g, n, arcs, which)
+
+
+def _answers(g, n, arcs, which):
     N = NAMES
     ix = {N[i]: i for i in range(n)}
-    g = build(n, arcs)
     V = range(n)
     opairs = [(x, y) for x in V for y in V if x != y]
     upairs = [(x, y) for x in V for y in V if x < y]
